@@ -1820,6 +1820,11 @@ class Walker:
         if name in ("builtins.str", "builtins.int") and args and args[0].kind == "const":
             try:
                 return [("val", Const({"builtins.str": str, "builtins.int": int}[name](args[0].value)), s)]
+            except ValueError:
+                if len(args) == 1 and not kws and isinstance(args[0].value, (str, bytes)):
+                    # int() of this text fails the same way at run time
+                    s.add(Event("raise", node, "ValueError", self.frame, "implicit"))
+                    return [("raise", "ValueError", s)]
             except Exception:
                 pass
 
